@@ -81,9 +81,9 @@ for p in props:
 na = [{"property_id": p["id"], "reason": "check not built yet in this revision (framework under construction; DESIGN.md section 10 gives the order)"} for p in props if p["id"] not in CLAIMED]
 m = {"version": 1,
  "setup_cmd": "./setup.sh",
- "hooks": {"guard": "MYGRAD_VERIF", "enable": "no hooks were added to rsokl/MyGrad: every observable the properties speak about is reachable through the public API, so the guard variable MYGRAD_VERIF is reserved but read nowhere; no build step: mygrad is imported from /repo/src (the current working tree)",
+ "hooks": {"guard": "MYGRAD_VERIF", "enable": "MYGRAD_VERIF=1 in the environment when mygrad is imported (the C15 check sets it itself for the pytest subprocess that records the scope events of the repository's own tests); one add-only hook: mygrad._utils.ContextTracker.__enter__/__exit__ and turn_memory_guarding_on/off append (event, manager, depth, TRACK_GRAPH, MEM_GUARD) to a module-level list; no build step: mygrad is imported from /repo/src (the current working tree)",
            "baseline_off_cmd": "cd /repo && /venv/bin/python -m pytest -q -p no:cacheprovider --timeout=900",
-           "source_commits": [], "add_only": True},
+           "source_commits": ["91f9284"], "add_only": True},
  "engines": [{"name": "tlc-ref", "path": "/verif/spec", "serves_properties": sorted(CLAIMED), "kind_free_text": "TLA+ specifications (spec/*.tla) checked with TLC; Python harness (harness/) replays TLC behaviours into MyGrad and feeds recorded traces back to TLC"}],
  "checks": checks,
  "not_applicable": na,
